@@ -170,7 +170,7 @@ PROPS = {
     },
     "C12": {
         "modules": ["SxVerif.Props.C12"],
-        "components": ["cancel"],
+        "components": ["cancel", "pipeline"],
         "trusted_base": [
             "modelled, not verified: Go channel / select / WaitGroup / context semantics as Model/Engine.lean (see C08); Ctrl-C = step `cancelCmd`, enabled in every state, cancelling command ctx and derived ctx together; SIGINT delivery itself is runtime",
             "generic-engine side only: the packet pipeline lemmas (Proofs/ConcPacket*.lean) are imported at the marked place of Props/C12.lean when available",
@@ -181,6 +181,7 @@ PROPS = {
                         "the harness's Scanner ignores ctx (worst case for the return time)"],
         "level_text": "Lean theorems over Model/Engine.lean with Ctrl-C enabled in every state, by induction over Reachable, for every W, request list, producer script and schedule, i.e. every cancellation point: C12_no_panic (no send on a closed channel, no double close; errc closed => all W workers returned; results closed <=> copier returned), C12_progress (derived ctx cancelled and not returned => some return-path process can step), C12_rank_step + C12_bounded_return (ranking function: every return-path step strictly decreases it, no other step increases it after the cancel; along every execution at most rank steps), C12_rank_bound (rank <= 4*capRes + 2*capErr + 7*W + 5*|pending| + 12 = 4912 + 5*|pending| at the source's constants), C12_streams_end (returned => logger and drain returned, errc closed and empty, every sent error logged once), C12_whole_records (output grows only by one whole record per Write; only Put values are printed). Side conditions decided on regenerated descriptors. Tied to the code by cancelling the REAL engine + startScanEngine at the k-th Scan / Put / error / write for every k of short runs and with full buffers, in a child process (panic => recorded with goroutine dump), checking return time, complete lines, at-most-once counts.",
         "level_note": "Partial: bounded STEPS under fairness, not bounded time (C12_full stated, not claimed); generic-engine side; packet side pending import. Trusted: Lean kernel; channel/select semantics of the transition system; sxfacts for descriptors.",
+    },
     "C07": {
         "modules": ["SxVerif.Props.C07"],
         "components": ["pipeline"],
@@ -226,7 +227,7 @@ PROPS = {
     },
     "C13": {
         "modules": ["SxVerif.Props.C13"],
-        "components": ["gen"],
+        "components": ["gen", "engine", "pipeline"],
         "trusted_base": [
             "modelled, not verified: bufio.Scanner line splitting (64 KiB limit) and the easyjson decoder of IPPort as a line classifier (badJson | tooLong | entry(ip?, port)); net.ParseIP as an abstract outcome; cidranger as list membership",
         ],
